@@ -164,6 +164,11 @@ def run(ctx, eng):
                 "b'HEAD'" in c for c in conds if not c.startswith('not')):
             hdr_bad.append('a path finds content-length without storing it')
         for e in p.events:
+            c0 = e.cond if e.kind == 'assume' else None
+            while c0 is not None and c0[0] == 'not':
+                c0 = c0[1]
+            if c0 is not None and c0[0] == 'is' and T.NONE in c0[1:3]:
+                continue        # "was a length found at all", not its value
             if e.kind == 'assume' and any(
                     t[0] == 'call' and t[1] == 'int'
                     for t in cm._subterms(e.cond)):
